@@ -1,6 +1,8 @@
 import QuiverModel.Lemmas.Num.Kernel
 import QuiverModel.Lemmas.Num.Surd
 import QuiverModel.Lemmas.Num.Round
+import Mathlib.Tactic.LinearCombination
+import Mathlib.Data.Rat.Cast.Order
 /-
 C20 — the num module computes exactly and propagates absence.
 Property theorems about M-Num (`QuiverModel.Core.Num`, the hand translation of std/num.qv that the
@@ -421,5 +423,786 @@ theorem numer_denom_spec (x : Num) (hx : Canon x) (nx : ¬ isSurd x) :
     have h1 := Rat.num_div_eq_of_coprime hx.1 hx.2
     have h2 := Rat.den_div_eq_of_coprime hx.1 hx.2
     simp only [Num.numer, Num.denom, toQ, h1, h2, pure_eq, and_self]
+
+
+
+/-! ### surds: exactness in ℚ(√n), incompatible radicals -/
+
+theorem not_compatible_surds {x y : Num} (hx : Canon x) (hy : Canon y) (hc : ¬ Compatible x y) :
+    isSurd x ∧ isSurd y := by
+  unfold Compatible at hc
+  have h1 := (not_or.mp hc).1
+  have h2 := (not_or.mp (not_or.mp hc).2).1
+  constructor
+  · by_contra h; exact h1 ((explode_spec x hx).2.2.2.2.2 h)
+  · by_contra h; exact h2 ((explode_spec y hy).2.2.2.2.2 h)
+
+/-- `(a₁ + b₁√n) + (a₂ + b₂√n) = (a₁ + a₂) + (b₁ + b₂)√n`, in simplest canonical form -/
+theorem surd_add_exact (x y : Num) (hx : Canon x) (hy : Canon y) (hs : isSurd x ∨ isSurd y)
+    (hc : Compatible x y) :
+    ∃ z, Num.add (some x) (some y) = .ok (some z) ∧ Canon z ∧
+      Denotes z (qa x + qa y) (qb x + qb y) (sharedRadical x y) := by
+  rw [add_surd_eq x y hs]; exact (surdAdd_spec x y hx hy hs).2 hc
+
+theorem surd_sub_exact (x y : Num) (hx : Canon x) (hy : Canon y) (hs : isSurd x ∨ isSurd y)
+    (hc : Compatible x y) :
+    ∃ z, Num.sub (some x) (some y) = .ok (some z) ∧ Canon z ∧
+      Denotes z (qa x - qa y) (qb x - qb y) (sharedRadical x y) := by
+  rw [sub_surd_eq x y hs]; exact (surdSub_spec x y hx hy hs).2 hc
+
+/-- `(a₁ + b₁√n)(a₂ + b₂√n) = (a₁a₂ + b₁b₂·n) + (a₁b₂ + a₂b₁)√n` -/
+theorem surd_mul_exact (x y : Num) (hx : Canon x) (hy : Canon y) (hs : isSurd x ∨ isSurd y)
+    (hc : Compatible x y) :
+    ∃ z, Num.mul (some x) (some y) = .ok (some z) ∧ Canon z ∧
+      Denotes z (qa x * qa y + qb x * qb y * (sharedRadical x y : ℚ)) (qa x * qb y + qa y * qb x)
+        (sharedRadical x y) := by
+  rw [mul_surd_eq x y hs]; exact (surdMul_spec x y hx hy hs).2 hc
+
+/-- division: nil when the norm of the divisor vanishes, otherwise the exact quotient -/
+theorem surd_div_exact (x y : Num) (hx : Canon x) (hy : Canon y) (hs : isSurd x ∨ isSurd y)
+    (hc : Compatible x y) :
+    (qa y * qa y - qb y * qb y * (sharedRadical x y : ℚ) = 0 → Num.div (some x) (some y) = .ok none) ∧
+    (qa y * qa y - qb y * qb y * (sharedRadical x y : ℚ) ≠ 0 →
+      ∃ z, Num.div (some x) (some y) = .ok (some z) ∧ Canon z ∧
+        Denotes z
+          ((qa x * qa y - qb x * qb y * (sharedRadical x y : ℚ)) /
+            (qa y * qa y - qb y * qb y * (sharedRadical x y : ℚ)))
+          ((qb x * qa y - qa x * qb y) / (qa y * qa y - qb y * qb y * (sharedRadical x y : ℚ)))
+          (sharedRadical x y)) := by
+  rw [div_surd_eq x y hs]; exact (surdDiv_spec x y hx hy hs).2 hc
+
+/-- comparison involving a surd: the sign of the difference, decided by `surdSign` -/
+theorem surd_compare_spec (x y : Num) (hx : Canon x) (hy : Canon y) (hs : isSurd x ∨ isSurd y)
+    (hc : Compatible x y) :
+    Num.compare (some x) (some y) =
+      .ok (some (surdSign (qa x - qa y) (qb x - qb y) (sharedRadical x y))) := by
+  rw [compare_surd_eq x y hs, surdCompare_spec x y hx hy]; simp [hc]
+
+/-- Operands that carry different radicals: every binary operation is nil (an `ok none`,
+not an error), and so are the order-derived operations. -/
+theorem mixed_radicals_nil (x y : Num) (hx : Canon x) (hy : Canon y) (hc : ¬ Compatible x y) :
+    Num.add (some x) (some y) = .ok none ∧ Num.sub (some x) (some y) = .ok none ∧
+    Num.mul (some x) (some y) = .ok none ∧ Num.div (some x) (some y) = .ok none ∧
+    Num.compare (some x) (some y) = .ok none ∧ Num.min (some x) (some y) = .ok none ∧
+    Num.max (some x) (some y) = .ok none ∧ Num.eqQ (some x) (some y) = .ok none ∧
+    Num.ltQ (some x) (some y) = .ok none ∧ Num.leQ (some x) (some y) = .ok none ∧
+    Num.gtQ (some x) (some y) = .ok none ∧ Num.geQ (some x) (some y) = .ok none := by
+  have hs : isSurd x ∨ isSurd y := Or.inl (not_compatible_surds hx hy hc).1
+  have hcmp : Num.compare (some x) (some y) = .ok none := by
+    rw [compare_surd_eq x y hs, surdCompare_spec x y hx hy]; simp [hc]
+  refine ⟨?_, ?_, ?_, ?_, hcmp, ?_, ?_, ?_, ?_, ?_, ?_, ?_⟩
+  · rw [add_surd_eq x y hs]; exact (surdAdd_spec x y hx hy hs).1 hc
+  · rw [sub_surd_eq x y hs]; exact (surdSub_spec x y hx hy hs).1 hc
+  · rw [mul_surd_eq x y hs]; exact (surdMul_spec x y hx hy hs).1 hc
+  · rw [div_surd_eq x y hs]; exact (surdDiv_spec x y hx hy hs).1 hc
+  all_goals simp [Num.min, Num.max, Num.eqQ, Num.ltQ, Num.leQ, Num.gtQ, Num.geQ, hcmp]
+
+example : ¬ Compatible (.surd (.int 0) (.int 1) 2) (.surd (.int 0) (.int 1) 3) := by
+  simp [Compatible, qb, rad, toQsqrt, coeffQ, toRational, QM.Num.Rt.toQ, explode]
+example : Num.mul (some (.surd (.int 0) (.int 1) 2)) (some (.surd (.int 0) (.int 1) 3)) = .ok none := by decide
+example : Num.mul (some (.surd (.int 0) (.int 1) 2)) (some (.surd (.int 0) (.int 1) 2)) = .ok (some (.int 2)) := by decide
+
+/-! ### the ring ℚ(√n) behind the representation -/
+
+/-- value of the pair `(a, b)` at a square root `r` of `n` in any field of characteristic 0 -/
+def evalAt {K : Type} [Field K] (r : K) (a b : ℚ) : K := (a : K) + (b : K) * r
+
+theorem qs_add_sound {K : Type} [Field K] [CharZero K] (r : K) (a1 b1 a2 b2 : ℚ) :
+    evalAt r (a1 + a2) (b1 + b2) = evalAt r a1 b1 + evalAt r a2 b2 := by
+  unfold evalAt; push_cast; ring
+
+theorem qs_sub_sound {K : Type} [Field K] [CharZero K] (r : K) (a1 b1 a2 b2 : ℚ) :
+    evalAt r (a1 - a2) (b1 - b2) = evalAt r a1 b1 - evalAt r a2 b2 := by
+  unfold evalAt; push_cast; ring
+
+/-- the multiplication formula of `surd_mul` is multiplication in `K` whenever `r² = n` -/
+theorem qs_mul_sound {K : Type} [Field K] [CharZero K] (r : K) (n : Int) (hr : r * r = (n : K))
+    (a1 b1 a2 b2 : ℚ) :
+    evalAt r (a1 * a2 + b1 * b2 * (n : ℚ)) (a1 * b2 + a2 * b1) = evalAt r a1 b1 * evalAt r a2 b2 := by
+  unfold evalAt; push_cast
+  have : (b1 : K) * b2 * r * r = b1 * b2 * (n : K) := by rw [mul_assoc, hr]
+  linear_combination -this
+
+/-- the conjugate formula of `surd_div` is division in `K`: quotient times divisor = dividend -/
+theorem qs_div_sound {K : Type} [Field K] [CharZero K] (r : K) (n : Int) (hr : r * r = (n : K))
+    (a1 b1 a2 b2 : ℚ) (hnorm : a2 * a2 - b2 * b2 * (n : ℚ) ≠ 0) :
+    evalAt r ((a1 * a2 - b1 * b2 * (n : ℚ)) / (a2 * a2 - b2 * b2 * (n : ℚ)))
+        ((b1 * a2 - a1 * b2) / (a2 * a2 - b2 * b2 * (n : ℚ))) * evalAt r a2 b2 = evalAt r a1 b1 := by
+  unfold evalAt
+  have hK : ((a2 * a2 - b2 * b2 * (n : ℚ) : ℚ) : K) ≠ 0 := by exact_mod_cast hnorm
+  push_cast at hK ⊢
+  have hK' : (a2 : K) ^ 2 - (b2 : K) ^ 2 * (n : K) ≠ 0 := by simpa [sq] using hK
+  have h2 : (r : K) ^ 2 = (n : K) := by rw [sq, hr]
+  rw [← sq, ← sq] 
+  field_simp
+  linear_combination ((b1 : K) * a2 * b2 - a1 * b2 ^ 2) * h2
+
+
+
+section
+variable {K : Type} [Field K] [LinearOrder K] [IsStrictOrderedRing K]
+
+theorem sgnQ_castK (q : ℚ) :
+    (sgnQ q = 1 ↔ 0 < (q : K)) ∧ (sgnQ q = 0 ↔ (q : K) = 0) ∧ (sgnQ q = -1 ↔ (q : K) < 0) := by
+  obtain ⟨h1, h2, h3⟩ := sgnQ_cases q
+  refine ⟨h3.trans Rat.cast_pos.symm, h2.trans Rat.cast_eq_zero.symm, h1.trans Rat.cast_lt_zero.symm⟩
+
+/-- sign of `v` from the sign of `v * p` with `p > 0` -/
+theorem sign_of_mul_pos {v p w : K} (hp : 0 < p) (hw : w = v * p) :
+    (0 < w ↔ 0 < v) ∧ (w = 0 ↔ v = 0) ∧ (w < 0 ↔ v < 0) := by
+  subst hw
+  refine ⟨⟨fun h => pos_of_mul_pos_left h (le_of_lt hp), fun h => mul_pos h hp⟩, ?_, ?_⟩
+  · constructor
+    · intro h; rcases mul_eq_zero.mp h with h | h
+      · exact h
+      · exact absurd h (ne_of_gt hp)
+    · intro h; rw [h, zero_mul]
+  · constructor
+    · intro h; by_contra hc
+      have := mul_nonneg (not_lt.mp hc) (le_of_lt hp); exact absurd h (not_lt.mpr this)
+    · intro h; exact mul_neg_of_neg_of_pos h hp
+
+/-- **ssign is the sign of `a + b·r`** for every positive square root `r` of `n` in an ordered
+field (e.g. `r = √n` in ℝ): `surdSign` — the function `ssign` computes (`ssign_eq`) — answers 1, 0,
+-1 exactly when the value is positive, zero, negative. No irrationality assumption is needed. -/
+theorem surdSign_sound (A B : ℚ) (n : Int) (r : K) (hr0 : 0 < r) (hr : r * r = (n : K)) :
+    (surdSign A B n = 1 ↔ 0 < (A : K) + (B : K) * r) ∧
+    (surdSign A B n = 0 ↔ (A : K) + (B : K) * r = 0) ∧
+    (surdSign A B n = -1 ↔ (A : K) + (B : K) * r < 0) := by
+  unfold surdSign
+  by_cases hB : B = 0
+  · simp only [hB, if_true, Rat.cast_zero, zero_mul, add_zero]; exact sgnQ_castK A
+  · simp only [hB, if_false]
+    have hcast : ((A * A - B * B * (n : ℚ) : ℚ) : K) = ((A : K) + B * r) * ((A : K) - B * r) := by
+      push_cast
+      have : (B : K) * B * r * r = B * B * (n : K) := by rw [mul_assoc, hr]
+      linear_combination this
+    obtain ⟨s1, s0, sm⟩ := sgnQ_castK (K := K) (A * A - B * B * (n : ℚ))
+    by_cases hBpos : 0 < B
+    · have hBK : (0 : K) < B := Rat.cast_pos.mpr hBpos
+      have hBr : 0 < (B : K) * r := mul_pos hBK hr0
+      simp only [hBpos, if_true]
+      by_cases hA : A < 0
+      · have hAK : (A : K) < 0 := Rat.cast_lt_zero.mpr hA
+        simp only [hA, if_true]
+        -- value · (B r − A) = −(A² − B² n), and B r − A > 0
+        have hp : 0 < (B : K) * r - A := by linarith
+        have hw : -((A * A - B * B * (n : ℚ) : ℚ) : K) = ((A : K) + B * r) * ((B : K) * r - A) := by
+          rw [hcast]; ring
+        obtain ⟨p1, p0, pm⟩ := sign_of_mul_pos hp hw
+        refine ⟨?_, ?_, ?_⟩
+        · rw [← p1, neg_pos, ← sm]; constructor <;> intro h <;> omega
+        · rw [← p0, neg_eq_zero, ← s0]; constructor <;> intro h <;> omega
+        · rw [← pm, neg_lt_zero, ← s1]; constructor <;> intro h <;> omega
+      · have hAK : (0 : K) ≤ A := Rat.cast_nonneg.mpr (not_lt.mp hA)
+        simp only [hA, if_false]
+        have : 0 < (A : K) + B * r := by linarith
+        refine ⟨⟨fun _ => this, fun _ => trivial⟩, ⟨fun h => by omega, fun h => absurd h (ne_of_gt this)⟩,
+          ⟨fun h => by omega, fun h => absurd h (not_lt.mpr (le_of_lt this))⟩⟩
+    · have hBneg : B < 0 := lt_of_le_of_ne (not_lt.mp hBpos) hB
+      have hBK : (B : K) < 0 := Rat.cast_lt_zero.mpr hBneg
+      have hBr : (B : K) * r < 0 := mul_neg_of_neg_of_pos hBK hr0
+      simp only [hBpos, if_false]
+      by_cases hA : 0 < A
+      · have hAK : (0 : K) < A := Rat.cast_pos.mpr hA
+        simp only [hA, if_true]
+        have hp : 0 < (A : K) - B * r := by linarith
+        obtain ⟨p1, p0, pm⟩ := sign_of_mul_pos hp hcast
+        exact ⟨s1.trans p1, s0.trans p0, sm.trans pm⟩
+      · have hAK : (A : K) ≤ 0 := Rat.cast_nonpos.mpr (not_lt.mp hA)
+        simp only [hA, if_false]
+        have : (A : K) + B * r < 0 := by linarith
+        refine ⟨⟨fun h => by omega, fun h => absurd h (not_lt.mpr (le_of_lt this))⟩,
+          ⟨fun h => by omega, fun h => absurd h (ne_of_lt this)⟩, ⟨fun _ => this, fun _ => trivial⟩⟩
+end
+
+
+
+/-! ### literal desugaring (`parser.rs`) -/
+
+theorem reduceRational_eq (n d : Int) (hd : 0 < d) :
+    reduceRational n d = ((reduceP n d).n, (reduceP n d).d) := by
+  have hg := gcd_ne_zero_of_right (n := n) (ne_of_gt hd)
+  have hnl : ¬ d < 0 := by omega
+  unfold reduceRational reduceP
+  simp only [hnl, if_false]
+  have : (Int.ofNat (Int.gcd n d)) = ((Int.gcd n d : ℕ) : ℤ) := rfl
+  simp only [this, hg, if_false]
+
+/-- `rational_term` on a positive denominator yields the canonical rational of the same value -/
+theorem rationalTerm_spec (n d : Int) (hd : 0 < d) :
+    ∃ n' d', rationalTerm (n, d) = .rat n' d' ∧ Canon (.rat n' d') ∧
+      toQ (.rat n' d') = (n : ℚ) / (d : ℚ) := by
+  obtain ⟨hc, hv⟩ := reduceP_spec (n := n) (ne_of_gt hd)
+  refine ⟨(reduceP n d).n, (reduceP n d).d, ?_, hc, hv⟩
+  simp [rationalTerm, reduceRational_eq n d hd]
+
+theorem digitsVal_foldl (ds : List Nat) (acc : Nat) :
+    ds.foldl (fun a d => a * 10 + d) acc = acc * 10 ^ ds.length + digitsVal ds := by
+  induction ds generalizing acc with
+  | nil => simp [digitsVal]
+  | cons d ds ih =>
+    simp only [List.foldl_cons, List.length_cons, digitsVal]
+    rw [ih, ih (0 * 10 + d)]; ring
+
+/-- the digits before and after the point combine positionally -/
+theorem digitsVal_append (ip fp : List Nat) :
+    digitsVal (ip ++ fp) = digitsVal ip * 10 ^ fp.length + digitsVal fp := by
+  unfold digitsVal; rw [List.foldl_append, digitsVal_foldl]; rfl
+
+/-- A decimal literal `[-]i.f` desugars to the canonical `Rational` whose value is
+`±(i + f / 10^|f|)`. -/
+theorem decimal_literal_value (neg : Bool) (ip fp : List Nat) :
+    ∃ n d, decimalLit neg ip fp = .rat n d ∧ Canon (.rat n d) ∧
+      toQ (.rat n d) = (if neg then -1 else 1) *
+        ((digitsVal ip : ℚ) + (digitsVal fp : ℚ) / (10 : ℚ) ^ fp.length) := by
+  have hpow : (0 : Int) < (10 : Int) ^ fp.length := by positivity
+  obtain ⟨n, d, h1, h2, h3⟩ := rationalTerm_spec (decimalParts neg ip fp).1 ((10 : Int) ^ fp.length) hpow
+  refine ⟨n, d, ?_, h2, ?_⟩
+  · rw [← h1]; rfl
+  · rw [h3]
+    have hp : ((10 : ℚ) ^ fp.length) ≠ 0 := by positivity
+    cases neg <;> simp [decimalParts, digitsVal_append] <;> field_simp
+
+/-- A fraction literal `[-]p/q`: rejected when `q = 0`, otherwise the canonical `Rational` of
+value `±p/q`. -/
+theorem fraction_literal_value (neg : Bool) (np dp : List Nat) :
+    (digitsVal dp = 0 → fractionLit neg np dp = none) ∧
+    (digitsVal dp ≠ 0 → ∃ n d, fractionLit neg np dp = some (.rat n d) ∧ Canon (.rat n d) ∧
+      toQ (.rat n d) = (if neg then -1 else 1) * ((digitsVal np : ℚ) / (digitsVal dp : ℚ))) := by
+  constructor
+  · intro h; simp [fractionLit, fractionParts, h]
+  · intro h
+    have hpos : (0 : Int) < Int.ofNat (digitsVal dp) := by
+      have : 0 < digitsVal dp := Nat.pos_of_ne_zero h
+      show (0 : Int) < ((digitsVal dp : ℕ) : ℤ)
+      exact_mod_cast this
+    have hne : (Int.ofNat (digitsVal dp)) ≠ 0 := ne_of_gt hpos
+    obtain ⟨n, d, h1, h2, h3⟩ := rationalTerm_spec
+      (if neg then -(Int.ofNat (digitsVal np)) else Int.ofNat (digitsVal np)) (Int.ofNat (digitsVal dp)) hpos
+    refine ⟨n, d, ?_, h2, ?_⟩
+    · simp only [fractionLit, fractionParts, hne, if_false, Option.map_some, h1]
+    · rw [h3]; cases neg
+      · simp
+      · simp; ring
+
+example : decimalLit true [1] [5, 0] = .rat (-3) 2 := by decide
+example : fractionLit false [4] [2] = some (.rat 2 1) := by decide
+example : fractionLit false [1] [0] = none := by decide
+
+
+
+/-! ### field and order laws (corollaries of exactness + uniqueness of canonical forms) -/
+
+theorem toQsqrt_of_not_surd {z : Num} (h : ¬ isSurd z) : toQsqrt z = (toQ z, 0, 1) := by
+  cases z <;> first | rfl | exact absurd trivial h
+
+theorem kind_of_isInt {z : Num} (h : isInt z) : kind z = 0 := by
+  cases z <;> first | rfl | exact absurd h (fun h => h)
+theorem kind_of_isRat {z : Num} (h : isRat z) : kind z = 1 := by
+  cases z <;> first | rfl | exact absurd h (fun h => h)
+theorem not_surd_of_isInt {z : Num} (h : isInt z) : ¬ isSurd z := by
+  cases z <;> first | exact (fun h => h) | exact absurd h (fun h => h)
+theorem not_surd_of_isRat {z : Num} (h : isRat z) : ¬ isSurd z := by
+  cases z <;> first | exact (fun h => h) | exact absurd h (fun h => h)
+
+/-- a spec'd result: its kind and that it is no surd -/
+theorem result_kind {x y z : Num} (h1 : isInt x ∧ isInt y → isInt z) (h2 : ¬ (isInt x ∧ isInt y) → isRat z) :
+    ¬ isSurd z ∧ kind z = (if isInt x ∧ isInt y then 0 else 1) ∧ (isInt z ↔ isInt x ∧ isInt y) := by
+  by_cases h : isInt x ∧ isInt y
+  · exact ⟨not_surd_of_isInt (h1 h), by simp [h, kind_of_isInt (h1 h)], fun _ => h, fun _ => h1 h⟩
+  · refine ⟨not_surd_of_isRat (h2 h), by simp [h, kind_of_isRat (h2 h)], fun hz => ?_, fun hh => absurd hh h⟩
+    have := kind_of_isRat (h2 h); rw [kind_of_isInt hz] at this; omega
+
+/-- two canonical non-surd numbers with the same value and kind are the same number -/
+theorem eq_of_value_kind {a b : Num} (ha : Canon a) (hb : Canon b) (na : ¬ isSurd a) (nb : ¬ isSurd b)
+    (hv : toQ a = toQ b) (hk : kind a = kind b) : a = b :=
+  canon_unique a b ha hb hk (by rw [toQsqrt_of_not_surd na, toQsqrt_of_not_surd nb, hv])
+
+theorem add_comm_law (x y : Num) (hx : Canon x) (hy : Canon y) (nx : ¬ isSurd x) (ny : ¬ isSurd y) :
+    Num.add (some x) (some y) = Num.add (some y) (some x) := by
+  obtain ⟨z1, e1, c1, v1, i1, r1⟩ := add_spec x y hx hy nx ny
+  obtain ⟨z2, e2, c2, v2, i2, r2⟩ := add_spec y x hy hx ny nx
+  obtain ⟨n1, k1, _⟩ := result_kind i1 r1
+  obtain ⟨n2, k2, _⟩ := result_kind i2 r2
+  rw [e1, e2, eq_of_value_kind c1 c2 n1 n2 (by rw [v1, v2]; ring) (by rw [k1, k2]; simp [and_comm])]
+
+theorem mul_comm_law (x y : Num) (hx : Canon x) (hy : Canon y) (nx : ¬ isSurd x) (ny : ¬ isSurd y) :
+    Num.mul (some x) (some y) = Num.mul (some y) (some x) := by
+  obtain ⟨z1, e1, c1, v1, i1, r1⟩ := mul_spec x y hx hy nx ny
+  obtain ⟨z2, e2, c2, v2, i2, r2⟩ := mul_spec y x hy hx ny nx
+  obtain ⟨n1, k1, _⟩ := result_kind i1 r1
+  obtain ⟨n2, k2, _⟩ := result_kind i2 r2
+  rw [e1, e2, eq_of_value_kind c1 c2 n1 n2 (by rw [v1, v2]; ring) (by rw [k1, k2]; simp [and_comm])]
+
+/-- `(x + y) + z = x + (y + z)`, as identical canonical values -/
+theorem add_assoc_law (x y z : Num) (hx : Canon x) (hy : Canon y) (hz : Canon z)
+    (nx : ¬ isSurd x) (ny : ¬ isSurd y) (nz : ¬ isSurd z) :
+    ∃ u v r, Num.add (some x) (some y) = .ok (some u) ∧ Num.add (some u) (some z) = .ok (some r) ∧
+      Num.add (some y) (some z) = .ok (some v) ∧ Num.add (some x) (some v) = .ok (some r) := by
+  obtain ⟨u, eu, cu, vu, iu, ru⟩ := add_spec x y hx hy nx ny
+  obtain ⟨nu, ku, bu⟩ := result_kind iu ru
+  obtain ⟨r1, e1, c1, v1, i1, q1⟩ := add_spec u z cu hz nu nz
+  obtain ⟨n1, k1, b1⟩ := result_kind i1 q1
+  obtain ⟨v, ev, cv, vv, iv, rv⟩ := add_spec y z hy hz ny nz
+  obtain ⟨nv, kv, bv⟩ := result_kind iv rv
+  obtain ⟨r2, e2, c2, v2, i2, q2⟩ := add_spec x v hx cv nx nv
+  obtain ⟨n2, k2, b2⟩ := result_kind i2 q2
+  refine ⟨u, v, r1, eu, e1, ev, ?_⟩
+  rw [e2, eq_of_value_kind c2 c1 n2 n1 (by rw [v1, v2, vu, vv]; ring)
+    (by rw [k1, k2]; simp only [bu, bv, and_assoc])]
+
+theorem mul_assoc_law (x y z : Num) (hx : Canon x) (hy : Canon y) (hz : Canon z)
+    (nx : ¬ isSurd x) (ny : ¬ isSurd y) (nz : ¬ isSurd z) :
+    ∃ u v r, Num.mul (some x) (some y) = .ok (some u) ∧ Num.mul (some u) (some z) = .ok (some r) ∧
+      Num.mul (some y) (some z) = .ok (some v) ∧ Num.mul (some x) (some v) = .ok (some r) := by
+  obtain ⟨u, eu, cu, vu, iu, ru⟩ := mul_spec x y hx hy nx ny
+  obtain ⟨nu, ku, bu⟩ := result_kind iu ru
+  obtain ⟨r1, e1, c1, v1, i1, q1⟩ := mul_spec u z cu hz nu nz
+  obtain ⟨n1, k1, b1⟩ := result_kind i1 q1
+  obtain ⟨v, ev, cv, vv, iv, rv⟩ := mul_spec y z hy hz ny nz
+  obtain ⟨nv, kv, bv⟩ := result_kind iv rv
+  obtain ⟨r2, e2, c2, v2, i2, q2⟩ := mul_spec x v hx cv nx nv
+  obtain ⟨n2, k2, b2⟩ := result_kind i2 q2
+  refine ⟨u, v, r1, eu, e1, ev, ?_⟩
+  rw [e2, eq_of_value_kind c2 c1 n2 n1 (by rw [v1, v2, vu, vv]; ring)
+    (by rw [k1, k2]; simp only [bu, bv, and_assoc])]
+
+/-- `x·(y + z) = x·y + x·z`, as identical canonical values -/
+theorem distrib_law (x y z : Num) (hx : Canon x) (hy : Canon y) (hz : Canon z)
+    (nx : ¬ isSurd x) (ny : ¬ isSurd y) (nz : ¬ isSurd z) :
+    ∃ s p q r, Num.add (some y) (some z) = .ok (some s) ∧ Num.mul (some x) (some s) = .ok (some r) ∧
+      Num.mul (some x) (some y) = .ok (some p) ∧ Num.mul (some x) (some z) = .ok (some q) ∧
+      Num.add (some p) (some q) = .ok (some r) := by
+  obtain ⟨s, es, cs, vs, is, rs⟩ := add_spec y z hy hz ny nz
+  obtain ⟨ns, ks, bs⟩ := result_kind is rs
+  obtain ⟨r1, e1, c1, v1, i1, q1⟩ := mul_spec x s hx cs nx ns
+  obtain ⟨n1, k1, b1⟩ := result_kind i1 q1
+  obtain ⟨p, ep, cp, vp, ip, rp⟩ := mul_spec x y hx hy nx ny
+  obtain ⟨np, kp, bp⟩ := result_kind ip rp
+  obtain ⟨q, eq, cq, vq, iq, rq⟩ := mul_spec x z hx hz nx nz
+  obtain ⟨nq, kq, bq⟩ := result_kind iq rq
+  obtain ⟨r2, e2, c2, v2, i2, q2⟩ := add_spec p q cp cq np nq
+  obtain ⟨n2, k2, b2⟩ := result_kind i2 q2
+  refine ⟨s, p, q, r1, es, e1, ep, eq, ?_⟩
+  rw [e2, eq_of_value_kind c2 c1 n2 n1 (by rw [v1, v2, vs, vp, vq]; ring)
+    (by rw [k1, k2]; simp only [bs, bp, bq]; by_cases h1 : isInt x <;> by_cases h2 : isInt y <;>
+          by_cases h3 : isInt z <;> simp [h1, h2, h3])]
+
+/-- subtraction undoes addition: `(x − y) + y` has the value of `x` -/
+theorem sub_add_cancel_law (x y : Num) (hx : Canon x) (hy : Canon y) (nx : ¬ isSurd x) (ny : ¬ isSurd y) :
+    ∃ d r, Num.sub (some x) (some y) = .ok (some d) ∧ Num.add (some d) (some y) = .ok (some r) ∧
+      toQ r = toQ x := by
+  obtain ⟨d, ed, cd, vd, id, rd⟩ := sub_spec x y hx hy nx ny
+  obtain ⟨nd, _, _⟩ := result_kind id rd
+  obtain ⟨r, er, cr, vr, _, _⟩ := add_spec d y cd hy nd ny
+  exact ⟨d, r, ed, er, by rw [vr, vd]; ring⟩
+
+/-- division undoes multiplication: `(x / y)·y` has the value of `x` when `y ≠ 0` -/
+theorem div_mul_cancel_law (x y : Num) (hx : Canon x) (hy : Canon y) (nx : ¬ isSurd x) (ny : ¬ isSurd y)
+    (h0 : toQ y ≠ 0) :
+    ∃ q r, Num.div (some x) (some y) = .ok (some q) ∧ Num.mul (some q) (some y) = .ok (some r) ∧
+      toQ r = toQ x := by
+  obtain ⟨q, eq, cq, rq, vq⟩ := (div_spec x y hx hy nx ny).2 h0
+  obtain ⟨r, er, cr, vr, _, _⟩ := mul_spec q y cq hy (not_surd_of_isRat rq) ny
+  exact ⟨q, r, eq, er, by rw [vr, vq]; field_simp⟩
+
+/-- order is translation invariant: comparing `x + z` with `y + z` is comparing `x` with `y` -/
+theorem order_add_law (x y z : Num) (hx : Canon x) (hy : Canon y) (hz : Canon z)
+    (nx : ¬ isSurd x) (ny : ¬ isSurd y) (nz : ¬ isSurd z) :
+    ∃ a b, Num.add (some x) (some z) = .ok (some a) ∧ Num.add (some y) (some z) = .ok (some b) ∧
+      Num.compare (some a) (some b) = Num.compare (some x) (some y) := by
+  obtain ⟨a, ea, ca, va, ia, ra⟩ := add_spec x z hx hz nx nz
+  obtain ⟨na, _, _⟩ := result_kind ia ra
+  obtain ⟨b, eb, cb, vb, ib, rb⟩ := add_spec y z hy hz ny nz
+  obtain ⟨nb, _, _⟩ := result_kind ib rb
+  refine ⟨a, b, ea, eb, ?_⟩
+  rw [compare_spec a b ca cb na nb, compare_spec x y hx hy nx ny, va, vb]
+  congr 3; ring
+
+/-- multiplication by a positive number preserves the order, by a negative one reverses it -/
+theorem order_mul_law (x y z : Num) (hx : Canon x) (hy : Canon y) (hz : Canon z)
+    (nx : ¬ isSurd x) (ny : ¬ isSurd y) (nz : ¬ isSurd z) :
+    ∃ a b c, Num.mul (some x) (some z) = .ok (some a) ∧ Num.mul (some y) (some z) = .ok (some b) ∧
+      Num.compare (some a) (some b) = .ok (some c) ∧
+      (0 < toQ z → c = sgnQ (toQ x - toQ y)) ∧ (toQ z < 0 → c = sgnQ (toQ y - toQ x)) ∧
+      (toQ z = 0 → c = 0) := by
+  obtain ⟨a, ea, ca, va, ia, ra⟩ := mul_spec x z hx hz nx nz
+  obtain ⟨na, _, _⟩ := result_kind ia ra
+  obtain ⟨b, eb, cb, vb, ib, rb⟩ := mul_spec y z hy hz ny nz
+  obtain ⟨nb, _, _⟩ := result_kind ib rb
+  refine ⟨a, b, _, ea, eb, compare_spec a b ca cb na nb, ?_, ?_, ?_⟩
+  · intro h; rw [va, vb, ← sub_mul, sgnQ_mul_pos h]
+  · intro h
+    have : toQ x * toQ z - toQ y * toQ z = (toQ y - toQ x) * (- toQ z) := by ring
+    rw [va, vb, this, sgnQ_mul_pos (by linarith)]
+  · intro h; rw [va, vb, h]; simp [sgnQ]
+
+
+
+/-! ### exact square root -/
+
+theorem build_one {a b : Rt} (ha : a.d ≠ 0) (hb : b.d ≠ 0) :
+    ∃ r : Rt, r.Canon ∧ r.toQ = a.toQ + b.toQ ∧ build a b 1 = .ok (lower r.toCoeff).toNum := by
+  obtain ⟨r, h1, h2, h3⟩ := radd_spec (x := a) (y := b) ha hb
+  exact ⟨r, h2, h3, by simp [build, cmp_eq_zero, h1]⟩
+
+theorem sqrt_eq_sqrtCoeff (x : Num) (nx : ¬ isSurd x) : Num.sqrt (some x) = sqrtCoeff (coeffOf x) := by
+  cases x <;> first | rfl | exact absurd trivial nx
+
+theorem sign_of_div_pos {p q : Int} (hq : 0 < q) :
+    (((p : ℚ) / (q : ℚ) < 0) ↔ p < 0) ∧ (((p : ℚ) / (q : ℚ) = 0) ↔ p = 0) ∧ ((0 < (p : ℚ) / (q : ℚ)) ↔ 0 < p) := by
+  have hqq : (0 : ℚ) < q := by exact_mod_cast hq
+  refine ⟨?_, ?_, ?_⟩
+  · rw [div_lt_iff₀ hqq, zero_mul]; exact_mod_cast Iff.rfl
+  · rw [div_eq_zero_iff]; constructor
+    · rintro (h | h)
+      · exact_mod_cast h
+      · exact absurd h (ne_of_gt hqq)
+    · intro h; left; exact_mod_cast h
+  · rw [lt_div_iff₀ hqq, zero_mul]; exact_mod_cast Iff.rfl
+
+/-- `sqrt` of an integer or rational: nil for a negative operand, the integer 0 for zero, and for
+a positive operand the non-negative exact root in simplest form — a rational when the operand is a
+perfect square, otherwise a pure surd `b·√m` with `m` square-free — whose square is the operand.
+The trial-division loop terminates (no `fuelOut`), no builtin leaves its domain. -/
+theorem sqrt_spec (x : Num) (hx : Canon x) (nx : ¬ isSurd x) :
+    (toQ x < 0 → Num.sqrt (some x) = .ok none) ∧
+    (toQ x = 0 → Num.sqrt (some x) = .ok (some (.int 0))) ∧
+    (0 < toQ x → ∃ z, Num.sqrt (some x) = .ok (some z) ∧ Canon z ∧
+      (qa z = 0 ∨ qb z = 0) ∧ 0 ≤ qa z ∧ 0 ≤ qb z ∧
+      qa z * qa z + qb z * qb z * (rad z : ℚ) = toQ x) := by
+  have hq := coeffOf_d_pos x hx nx
+  have hv := toQ_coeffOf x nx
+  rw [sqrt_eq_sqrtCoeff x nx]
+  rcases hc : toRational (coeffOf x) with ⟨p, q⟩
+  rw [hc] at hq hv
+  simp only at hq
+  have hval : toQ x = (p : ℚ) / (q : ℚ) := by rw [← hv]; rfl
+  obtain ⟨s1, s2, s3⟩ := sign_of_div_pos (p := p) hq
+  rw [hval]
+  refine ⟨fun h => ?_, fun h => ?_, fun h => ?_⟩
+  · have := s1.mp h
+    simp [sqrtCoeff, hc, cmp_eq_neg_one, this]
+  · have := s2.mp h
+    simp [sqrtCoeff, hc, cmp_eq_neg_one, cmp_eq_zero, this]
+  · have hp := s3.mp h
+    have hpq : 0 < p * q := Int.mul_pos hp hq
+    obtain ⟨k, m, hsq, hkm, hk, hm, hfree⟩ := sqfree_spec (p * q) hpq
+    obtain ⟨b, hb1, hb2, hb3⟩ := reduce_spec (n := k) (ne_of_gt hq)
+    have hqq : (q : ℚ) ≠ 0 := by exact_mod_cast (ne_of_gt hq)
+    have hkq : (0 : ℚ) < (k : ℚ) / q := div_pos (by exact_mod_cast hk) (by exact_mod_cast hq)
+    have hkmq : (k : ℚ) * k * m = p * q := by exact_mod_cast hkm
+    have hn1 : ¬ p < 0 := by omega
+    have hn2 : ¬ p = 0 := by omega
+    have c0 : Rt.Canon ⟨0, 1⟩ := ⟨by decide, by decide⟩
+    by_cases hm1 : m = 1
+    · subst hm1
+      obtain ⟨r, hr1, hr2, hr3⟩ := build_one (a := ⟨0, 1⟩) (b := b) (by decide) (ne_of_gt hb2.1)
+      have hrv : r.toQ = (k : ℚ) / q := by rw [hr2, hb3]; simp [QM.Num.Rt.toQ]
+      refine ⟨(lower r.toCoeff).toNum, ?_, coeff_toNum_canon (lower_canon hr1), ?_⟩
+      · simp [sqrtCoeff, hc, cmp_eq_neg_one, cmp_eq_zero, hn1, hn2, hsq, hb1, hr3]
+      · have hts := coeff_toNum_toQsqrt (lower r.toCoeff)
+        have hqa : qa (lower r.toCoeff).toNum = (k : ℚ) / q := by
+          unfold qa; rw [hts, lower_coeffQ, hrv]
+        have hqb : qb (lower r.toCoeff).toNum = 0 := by unfold qb; rw [hts]
+        refine ⟨Or.inr hqb, by rw [hqa]; exact le_of_lt hkq, by rw [hqb], ?_⟩
+        rw [hqa, hqb]; field_simp; push_cast at hkmq; linarith
+    · have hm2 : 1 < m := by omega
+      obtain ⟨z, hz1, hz2, hz3⟩ := build_spec c0 hb2 hm2 hfree
+      refine ⟨z, ?_, hz2, ?_⟩
+      · simp [sqrtCoeff, hc, cmp_eq_neg_one, cmp_eq_zero, hn1, hn2, hsq, hb1, hz1]
+      · obtain ⟨d1, d2, d3, d4⟩ := hz3
+        have hb0 : b.toQ ≠ 0 := by rw [hb3]; exact ne_of_gt hkq
+        have hqa : qa z = 0 := by unfold qa; rw [d1]; simp [QM.Num.Rt.toQ]
+        have hqb : qb z = (k : ℚ) / q := by unfold qb; rw [d2, hb3]
+        have hsurd := (d3 hb0).2
+        have hrad : rad z = m := by
+          cases z with
+          | int _ => exact absurd hsurd (fun h => h)
+          | rat _ _ => exact absurd hsurd (fun h => h)
+          | surd a' b' n' =>
+            have := (d3 hb0).1
+            simp only [toQsqrt] at this
+            have hn' := hz2.2.2.2.1
+            simp only [rad, explode]; omega
+        refine ⟨Or.inl hqa, by rw [hqa], by rw [hqb]; exact le_of_lt hkq, ?_⟩
+        rw [hqa, hqb, hrad]; field_simp; linarith
+
+theorem sqrt_surd_nil (a b : Coeff) (n : Int) : Num.sqrt (some (.surd a b n)) = .ok none := rfl
+
+example : Num.sqrt (some (.int 8)) = .ok (some (.surd (.int 0) (.int 2) 2)) := by decide
+example : Num.sqrt (some (.rat 1 4)) = .ok (some (.rat 1 2)) := by decide
+
+
+
+/-! ### no runtime error on canonical operands -/
+
+/-- the outcome is a value (a number, an integer, `Ok`, or nil) — not `err`, `panic`, `fuelOut` -/
+def IsOk {α} (r : Res α) : Prop := ∃ v, r = .ok v
+
+theorem compare_total (x y : Num) (hx : Canon x) (hy : Canon y) :
+    ∃ c, Num.compare (some x) (some y) = .ok c := by
+  by_cases hs : isSurd x ∨ isSurd y
+  · rw [compare_surd_eq x y hs, surdCompare_spec x y hx hy]; exact ⟨_, rfl⟩
+  · have nx : ¬ isSurd x := fun h => hs (Or.inl h)
+    have ny : ¬ isSurd y := fun h => hs (Or.inr h)
+    exact ⟨_, compare_spec x y hx hy nx ny⟩
+
+theorem neg_surd_ok (a b : Coeff) (n : Int) (hx : Canon (.surd a b n)) :
+    ∃ z, Num.neg (some (.surd a b n)) = .ok (some z) := by
+  obtain ⟨ha, hb, hb0, hn, hsq⟩ := hx
+  obtain ⟨a', ha1, ha2, _⟩ := rneg_spec (x := toRational a) (ne_of_gt (canonCoeff_d_pos ha))
+  obtain ⟨b', hb1, hb2, _⟩ := rneg_spec (x := toRational b) (ne_of_gt (canonCoeff_d_pos hb))
+  obtain ⟨z, hz, _, _⟩ := build_spec ha2 hb2 hn hsq
+  exact ⟨z, by simp [Num.neg, ha1, hb1, hz]⟩
+
+theorem abs_surd_ok (a b : Coeff) (n : Int) (hx : Canon (.surd a b n)) :
+    ∃ z, Num.abs (some (.surd a b n)) = .ok (some z) := by
+  obtain ⟨z, hz⟩ := neg_surd_ok a b n hx
+  obtain ⟨ha, hb, hb0, hn, hsq⟩ := hx
+  have hs := ssign_eq (toRational a) (toRational b) n (canonCoeff_d_pos ha) (canonCoeff_d_pos hb)
+  obtain ⟨a', ha1, ha2, _⟩ := rneg_spec (x := toRational a) (ne_of_gt (canonCoeff_d_pos ha))
+  obtain ⟨b', hb1, hb2, _⟩ := rneg_spec (x := toRational b) (ne_of_gt (canonCoeff_d_pos hb))
+  obtain ⟨z', hz', _, _⟩ := build_spec ha2 hb2 hn hsq
+  by_cases h : surdSign (toRational a).toQ (toRational b).toQ n = -1
+  · exact ⟨z', by simp [Num.abs, hs, h, ha1, hb1, hz']⟩
+  · exact ⟨.surd a b n, by simp [Num.abs, hs, h]⟩
+
+theorem toInt_surd_ok (a b : Coeff) (n : Int) (hx : Canon (.surd a b n)) :
+    ∃ t, Num.toInt (some (.surd a b n)) = .ok (some t) := by
+  obtain ⟨ha, hb, hb0, hn, hsq⟩ := hx
+  have hda := canonCoeff_d_pos ha
+  have hdb := canonCoeff_d_pos hb
+  have hs := ssign_eq (toRational a) (toRational b) n hda hdb
+  obtain ⟨a', ha1, ha2, _⟩ := rneg_spec (x := toRational a) (ne_of_gt hda)
+  obtain ⟨b', hb1, hb2, _⟩ := rneg_spec (x := toRational b) (ne_of_gt hdb)
+  -- the tail after the operand pair has been chosen: total whenever both denominators are positive
+  have tail : ∀ (sgn : Int) (p q : Rt), 0 < p.d → 0 < q.d → ∃ t,
+      (match (p, q) with
+        | (⟨pa, qa⟩, ⟨pb, qb⟩) => do
+          let p ← iMul pa qb
+          let q ← iMul pb qa
+          let d ← iMul qa qb
+          let qq ← iMul q q
+          let qqn ← iMul qq n
+          let s ← iSqrt qqn
+          let c1 ← iCompare q 0
+          let nlo ← (if c1 = 1 then iAdd p s
+            else do
+              let s1 ← iAdd s 1
+              iSub p s1)
+          let t ← iDiv nlo d
+          let r ← iMul sgn t
+          pure (some r) : Res (Option Int)) = .ok (some t) := by
+    intro sgn p q hp hq
+    obtain ⟨pa, qa⟩ := p
+    obtain ⟨pb, qb⟩ := q
+    simp only at hp hq
+    have hd : qa * qb ≠ 0 := ne_of_gt (Int.mul_pos hp hq)
+    have hnn : 0 ≤ pb * qa * (pb * qa) * n := Int.mul_nonneg (mul_self_nonneg _) (by omega)
+    by_cases hc : cmp (pb * qa) 0 = 1
+    · simp [iSqrt_eq hnn, hc, iDiv_eq hd]
+    · simp [iSqrt_eq hnn, hc, iDiv_eq hd]
+  by_cases h : cmp (surdSign (toRational a).toQ (toRational b).toQ n) 0 = -1
+  · obtain ⟨t, ht⟩ := tail (surdSign (toRational a).toQ (toRational b).toQ n) a' b' ha2.1 hb2.1
+    exact ⟨t, by simp only [Num.toInt, hs, ok_bind, iCompare_eq, h, if_true, ha1, hb1, pure_eq]; exact ht⟩
+  · obtain ⟨t, ht⟩ := tail (surdSign (toRational a).toQ (toRational b).toQ n) (toRational a) (toRational b) hda hdb
+    exact ⟨t, by simp only [Num.toInt, hs, ok_bind, iCompare_eq, h, if_false, pure_eq]; exact ht⟩
+
+theorem toInt_ok (x : Num) (hx : Canon x) : ∃ t, Num.toInt (some x) = .ok (some t) := by
+  cases x with
+  | surd a b n => exact toInt_surd_ok a b n hx
+  | int z => obtain ⟨t, h, _⟩ := toInt_spec (.int z) hx (fun h => h); exact ⟨t, h⟩
+  | rat n d => obtain ⟨t, h, _⟩ := toInt_spec (.rat n d) hx (fun h => h); exact ⟨t, h⟩
+
+theorem floor_ok (x : Num) (hx : Canon x) : ∃ f, Num.floor (some x) = .ok (some f) := by
+  obtain ⟨t, ht⟩ := toInt_ok x hx
+  obtain ⟨c, hc⟩ := compare_total x (.int t) hx trivial
+  by_cases h : c = some (-1)
+  · exact ⟨t - 1, by simp [Num.floor, ht, hc, h]⟩
+  · exact ⟨t, by simp [Num.floor, ht, hc, h]⟩
+
+theorem ceil_ok (x : Num) (hx : Canon x) : ∃ f, Num.ceil (some x) = .ok (some f) := by
+  obtain ⟨t, ht⟩ := toInt_ok x hx
+  obtain ⟨c, hc⟩ := compare_total x (.int t) hx trivial
+  by_cases h : c = some 1
+  · exact ⟨t + 1, by simp [Num.ceil, ht, hc, h]⟩
+  · exact ⟨t, by simp [Num.ceil, ht, hc, h]⟩
+
+theorem round_ok (x : Num) (hx : Canon x) : ∃ r, Num.round (some x) = .ok (some r) := by
+  obtain ⟨f, hf⟩ := floor_ok x hx
+  obtain ⟨c, hc⟩ := compare_total x (.rat (f * 2 + 1) 2) hx (canon_half f)
+  by_cases h1 : c = some 1
+  · exact ⟨f + 1, by simp [Num.round, hf, hc, h1]⟩
+  · by_cases h2 : c = some (-1)
+    · exact ⟨f, by simp [Num.round, hf, hc, h2]⟩
+    · by_cases h3 : cmp f 0 = -1
+      · exact ⟨f, by simp [Num.round, hf, hc, h1, h3]⟩
+      · exact ⟨f + 1, by simp [Num.round, hf, hc, h2, h3]⟩
+
+/-- canonical or nil -/
+def CanonOpt : Option Num → Prop
+  | none => True
+  | some v => Canon v
+
+theorem unary_ok (x : Num) (hx : Canon x) :
+    IsOk (Num.neg (some x)) ∧ IsOk (Num.abs (some x)) ∧ IsOk (Num.sqrt (some x)) ∧
+    IsOk (Num.numer (some x)) ∧ IsOk (Num.denom (some x)) ∧ IsOk (Num.toInt (some x)) ∧
+    IsOk (Num.floor (some x)) ∧ IsOk (Num.ceil (some x)) ∧ IsOk (Num.round (some x)) ∧
+    IsOk (Num.sign (some x)) := by
+  have h6 : IsOk (Num.toInt (some x)) := by obtain ⟨t, h⟩ := toInt_ok x hx; exact ⟨_, h⟩
+  have h7 : IsOk (Num.floor (some x)) := by obtain ⟨t, h⟩ := floor_ok x hx; exact ⟨_, h⟩
+  have h8 : IsOk (Num.ceil (some x)) := by obtain ⟨t, h⟩ := ceil_ok x hx; exact ⟨_, h⟩
+  have h9 : IsOk (Num.round (some x)) := by obtain ⟨t, h⟩ := round_ok x hx; exact ⟨_, h⟩
+  have h10 : IsOk (Num.sign (some x)) := compare_total x (.int 0) hx trivial
+  by_cases sx : isSurd x
+  · cases x with
+    | int _ => exact absurd sx (fun h => h)
+    | rat _ _ => exact absurd sx (fun h => h)
+    | surd a b n =>
+      obtain ⟨z1, e1⟩ := neg_surd_ok a b n hx
+      obtain ⟨z2, e2⟩ := abs_surd_ok a b n hx
+      exact ⟨⟨_, e1⟩, ⟨_, e2⟩, ⟨_, rfl⟩, ⟨_, rfl⟩, ⟨_, rfl⟩, h6, h7, h8, h9, h10⟩
+  · obtain ⟨z1, e1, _⟩ := neg_spec x hx sx
+    obtain ⟨z2, e2, _⟩ := abs_spec x hx sx
+    obtain ⟨n1, n2⟩ := numer_denom_spec x hx sx
+    have h3 : IsOk (Num.sqrt (some x)) := by
+      obtain ⟨s1, s2, s3⟩ := sqrt_spec x hx sx
+      rcases lt_trichotomy (toQ x) 0 with h | h | h
+      · exact ⟨_, s1 h⟩
+      · exact ⟨_, s2 h⟩
+      · obtain ⟨z, hz, _⟩ := s3 h; exact ⟨_, hz⟩
+    exact ⟨⟨_, e1⟩, ⟨_, e2⟩, h3, ⟨_, n1⟩, ⟨_, n2⟩, h6, h7, h8, h9, h10⟩
+
+theorem arith_ok (x y : Num) (hx : Canon x) (hy : Canon y) :
+    IsOk (Num.add (some x) (some y)) ∧ IsOk (Num.sub (some x) (some y)) ∧
+    IsOk (Num.mul (some x) (some y)) ∧ IsOk (Num.div (some x) (some y)) := by
+  by_cases hs : isSurd x ∨ isSurd y
+  · by_cases hc : Compatible x y
+    · obtain ⟨z1, e1, _⟩ := surd_add_exact x y hx hy hs hc
+      obtain ⟨z2, e2, _⟩ := surd_sub_exact x y hx hy hs hc
+      obtain ⟨z3, e3, _⟩ := surd_mul_exact x y hx hy hs hc
+      obtain ⟨d1, d2⟩ := surd_div_exact x y hx hy hs hc
+      refine ⟨⟨_, e1⟩, ⟨_, e2⟩, ⟨_, e3⟩, ?_⟩
+      by_cases h0 : qa y * qa y - qb y * qb y * (sharedRadical x y : ℚ) = 0
+      · exact ⟨_, d1 h0⟩
+      · obtain ⟨z, hz, _⟩ := d2 h0; exact ⟨_, hz⟩
+    · obtain ⟨e1, e2, e3, e4, _⟩ := mixed_radicals_nil x y hx hy hc
+      exact ⟨⟨_, e1⟩, ⟨_, e2⟩, ⟨_, e3⟩, ⟨_, e4⟩⟩
+  · have nx : ¬ isSurd x := fun h => hs (Or.inl h)
+    have ny : ¬ isSurd y := fun h => hs (Or.inr h)
+    obtain ⟨z1, e1, _⟩ := add_spec x y hx hy nx ny
+    obtain ⟨z2, e2, _⟩ := sub_spec x y hx hy nx ny
+    obtain ⟨z3, e3, _⟩ := mul_spec x y hx hy nx ny
+    obtain ⟨d1, d2⟩ := div_spec x y hx hy nx ny
+    refine ⟨⟨_, e1⟩, ⟨_, e2⟩, ⟨_, e3⟩, ?_⟩
+    by_cases h0 : toQ y = 0
+    · exact ⟨_, d1 h0⟩
+    · obtain ⟨z, hz, _⟩ := d2 h0; exact ⟨_, hz⟩
+
+theorem order_ok (x y : Num) (hx : Canon x) (hy : Canon y) :
+    IsOk (Num.compare (some x) (some y)) ∧ IsOk (Num.min (some x) (some y)) ∧
+    IsOk (Num.max (some x) (some y)) ∧ IsOk (Num.eqQ (some x) (some y)) ∧
+    IsOk (Num.ltQ (some x) (some y)) ∧ IsOk (Num.leQ (some x) (some y)) ∧
+    IsOk (Num.gtQ (some x) (some y)) ∧ IsOk (Num.geQ (some x) (some y)) := by
+  obtain ⟨c, hc⟩ := compare_total x y hx hy
+  refine ⟨⟨_, hc⟩, ?_, ?_, ?_, ?_, ?_, ?_, ?_⟩
+  · cases c with
+    | none => exact ⟨none, by simp [Num.min, hc]⟩
+    | some c => by_cases h : c = 1
+                · exact ⟨some y, by simp [Num.min, hc, h]⟩
+                · exact ⟨some x, by simp [Num.min, hc, h]⟩
+  · cases c with
+    | none => exact ⟨none, by simp [Num.max, hc]⟩
+    | some c => by_cases h : c = -1
+                · exact ⟨some y, by simp [Num.max, hc, h]⟩
+                · exact ⟨some x, by simp [Num.max, hc, h]⟩
+  all_goals
+    simp only [Num.eqQ, Num.ltQ, Num.leQ, Num.gtQ, Num.geQ, hc, ok_bind, pure_eq]
+    unfold IsOk
+    repeat' split
+    all_goals exact ⟨_, rfl⟩
+
+theorem clamp_ok (x lo hi : Num) (hx : Canon x) (hl : Canon lo) (hh : Canon hi) :
+    IsOk (Num.clamp (some x) (some lo) (some hi)) := by
+  obtain ⟨c, hc⟩ := compare_total x lo hx hl
+  obtain ⟨c', hc'⟩ := compare_total x hi hx hh
+  cases c with
+  | none => exact ⟨none, by simp [Num.clamp, hc]⟩
+  | some c =>
+    by_cases h : c = -1
+    · exact ⟨some lo, by simp [Num.clamp, hc, h]⟩
+    · cases c' with
+      | none => exact ⟨none, by simp [Num.clamp, hc, h, hc']⟩
+      | some c' =>
+        by_cases h' : c' = 1
+        · exact ⟨some hi, by simp [Num.clamp, hc, h, hc', h']⟩
+        · exact ⟨some x, by simp [Num.clamp, hc, h, hc', h']⟩
+
+/-- **No runtime error.** On canonical (or nil) operands every operation of the module ends in a
+value — a number, an integer, `Ok` or nil; never `err` (no modelled builtin is called outside its
+domain: `reduce` never divides by a zero gcd, `rquot` never gets a zero divisor, the integer square
+root never sees a negative), never `panic`, never `fuelOut` (both loops terminate). -/
+theorem no_runtime_error (x y w : Option Num) (hx : CanonOpt x) (hy : CanonOpt y) (hw : CanonOpt w) :
+    (IsOk (Num.add x y) ∧ IsOk (Num.sub x y) ∧ IsOk (Num.mul x y) ∧ IsOk (Num.div x y)) ∧
+    (IsOk (Num.compare x y) ∧ IsOk (Num.min x y) ∧ IsOk (Num.max x y) ∧ IsOk (Num.eqQ x y) ∧
+      IsOk (Num.ltQ x y) ∧ IsOk (Num.leQ x y) ∧ IsOk (Num.gtQ x y) ∧ IsOk (Num.geQ x y)) ∧
+    IsOk (Num.clamp x y w) ∧
+    (IsOk (Num.neg x) ∧ IsOk (Num.abs x) ∧ IsOk (Num.sqrt x) ∧ IsOk (Num.numer x) ∧
+      IsOk (Num.denom x) ∧ IsOk (Num.toInt x) ∧ IsOk (Num.floor x) ∧ IsOk (Num.ceil x) ∧
+      IsOk (Num.round x) ∧ IsOk (Num.sign x)) := by
+  have hn := nil_propagates x y
+  obtain ⟨n1, n2, n3, n4, n5, n6, n7, _, n9, n10, n11, n12, n13, u1, u2, u3, u4, u5, u6, u7, u8, u9, u10⟩ := hn
+  have hcl := (nil_propagates y w).2.2.2.2.2.2.2.1
+  have hcl2 := (nil_propagates x w).2.2.2.2.2.2.2.1
+  have hcl3 := (nil_propagates x y).2.2.2.2.2.2.2.1
+  cases x with
+  | none =>
+    exact ⟨⟨⟨_, n1.1⟩, ⟨_, n2.1⟩, ⟨_, n3.1⟩, ⟨_, n4.1⟩⟩,
+      ⟨⟨_, n5.1⟩, ⟨_, n6.1⟩, ⟨_, n7.1⟩, ⟨_, n9.1⟩, ⟨_, n10.1⟩, ⟨_, n11.1⟩, ⟨_, n12.1⟩, ⟨_, n13.1⟩⟩,
+      ⟨_, hcl.1⟩,
+      ⟨⟨_, u1⟩, ⟨_, u2⟩, ⟨_, u3⟩, ⟨_, u4⟩, ⟨_, u5⟩, ⟨_, u6⟩, ⟨_, u7⟩, ⟨_, u8⟩, ⟨_, u9⟩, ⟨_, u10⟩⟩⟩
+  | some xv =>
+    have hu := unary_ok xv hx
+    cases y with
+    | none =>
+      exact ⟨⟨⟨_, n1.2⟩, ⟨_, n2.2⟩, ⟨_, n3.2⟩, ⟨_, n4.2⟩⟩,
+        ⟨⟨_, n5.2⟩, ⟨_, n6.2⟩, ⟨_, n7.2⟩, ⟨_, n9.2⟩, ⟨_, n10.2⟩, ⟨_, n11.2⟩, ⟨_, n12.2⟩, ⟨_, n13.2⟩⟩,
+        ⟨_, hcl2.2.1⟩, hu⟩
+    | some yv =>
+      refine ⟨arith_ok xv yv hx hy, order_ok xv yv hx hy, ?_, hu⟩
+      cases w with
+      | none => exact ⟨_, hcl3.2.2⟩
+      | some wv => exact clamp_ok xv yv wv hx hy hw
+
+example : CanonOpt (some (.surd (.rat 1 2) (.rat 1 2) 5)) := by
+  simp [CanonOpt, Canon, CanonCoeff, coeffQ, toRational, QM.Num.Rt.toQ, SqFree]
+  intro e he hdiv
+  have h1 : e * e ≤ 5 := Int.le_of_dvd (by decide) hdiv
+  have : e = 2 := by nlinarith
+  subst this; revert hdiv; decide
+
+
+/-! ### `to_int` of a surd — full statement, proved part -/
+
+/-- FULL STATEMENT (not proved here): `to_int` of a canonical surd `a + b·√n` is its truncation
+toward zero, for the value taken at any positive square root `r` of `n` in an ordered field. -/
+def toInt_surd_Statement : Prop :=
+  ∀ (K : Type) [Field K] [LinearOrder K] [IsStrictOrderedRing K] (a b : Coeff) (n : Int) (r : K),
+    Canon (.surd a b n) → 0 < r → r * r = (n : K) →
+    ∃ t : Int, Num.toInt (some (.surd a b n)) = .ok (some t) ∧
+      ((0 ≤ (coeffQ a : K) + (coeffQ b : K) * r →
+          (t : K) ≤ (coeffQ a : K) + (coeffQ b : K) * r ∧ (coeffQ a : K) + (coeffQ b : K) * r < t + 1) ∧
+       ((coeffQ a : K) + (coeffQ b : K) * r ≤ 0 →
+          (t : K) - 1 < (coeffQ a : K) + (coeffQ b : K) * r ∧ (coeffQ a : K) + (coeffQ b : K) * r ≤ t))
+
+/-- Proved part of `toInt_surd_Statement`: `to_int` of a canonical surd is total — it returns an
+integer, the integer square root is never applied to a negative and the final division never
+divides by zero. Missing: the bracketing argument `s ≤ |Q|·√n < s + 1` for `s = isqrt(Q²·n)` and
+the floor-division step (the value-level claim is checked by the differential and the exact host
+oracle, including the isqrt boundary stream). -/
+theorem toInt_surd_partial (a b : Coeff) (n : Int) (hx : Canon (.surd a b n)) :
+    ∃ t, Num.toInt (some (.surd a b n)) = .ok (some t) := toInt_surd_ok a b n hx
 
 end C20
